@@ -47,6 +47,21 @@ def _work(item):
                                                max_seconds=params.get("max_seconds", 25), tag="stage", call=G.stagewise)
         elif mode == "random":
             res, tree = G.validate_random_runs(mol, g, params["seeds"], tag="rand")
+        elif mode == "replay":
+            # specification -> code: TLC generates the schedules (decisions and targets), the code is stepped through them, GenerateTrace judges
+            behs, rt = G.export_behaviours(mol, I._sto_targets(mol, params.get("K", 1)), tag="mch", timeout=params.get("timeout", 60))
+            behs = [b for b in behs if b["positive"]]
+            cap = params.get("cap", 80)
+            if len(behs) > cap:
+                step = len(behs) / cap
+                behs = [behs[int(i * step)] for i in range(cap)]
+            if params.get("simulate"):
+                big = {i: [400000, 900000] for i in range(1, len(mol.elems) + 1)}
+                deep, _ = G.export_behaviours(mol, big, tag="mchsim", timeout=params.get("timeout", 60) * 3, simulate=params["simulate"])
+                behs += [b for b in deep if b["positive"]][: params.get("cap_deep", 40)]
+            if not behs:
+                raise RuntimeError("TLC exported no behaviour of GenerateMCH: " + rt.tail(5))
+            res, tree = G.replay_behaviours(mol, g, behs, tag="replay")
         else:
             raise ValueError(mode)
     except Exception as exc:  # machinery problem inside a worker
@@ -192,6 +207,9 @@ def build_items(prop, tier, rnd):
         for m in core:
             if len(m.elems) >= 2 and not m.name.startswith("neg"):
                 items.append((m, "stage", dict(max_nodes=600, max_seconds=10)))
+    # specification -> code: behaviours TLC generates from GenerateMCH replayed into the code
+    for m in core:
+        items.append((m, "replay", dict(K=1, cap=80, timeout=60) if tier == "quick" else dict(K=3, cap=1500, timeout=400, simulate=(40, 3000), cap_deep=40)))
     # recorded random streams on long variants of the hand-written instances
     n_s = 3 if tier == "quick" else 12
     for m in I.core_instances() + I.extra_instances():
@@ -367,6 +385,9 @@ def run(prop, tier):
                            (["Termination (liveness, WF)", "WellPosed"] if prop == "C06" else []),
                            "per_instance": mc_results[:12]},
         "conformance": {"instances": len(results), "tree_nodes_validated": tot_nodes, "paths": tot_paths,
+                        "spec_to_code": {"instances": sum(1 for r in results if r.get("mode") == "replay"),
+                                         "behaviours_generated_by_TLC_and_replayed_into_the_code": sum(r["paths"] for r in results if r.get("mode") == "replay"),
+                                         "tree_nodes": sum(r["reached"] for r in results if r.get("mode") == "replay")},
                         "nodes_not_examined_after_a_divergence": unexamined,
                         "decision_census": {k: n for k, n in sorted(census.items()) if n},
                         "wall_s": round(conf_wall, 1),
